@@ -377,6 +377,10 @@ class NetworkMixin(RadioMixin):
         if msg_t == MESH_ADDR_RESPONSE and NETWORK_DEFAULT_ADDR != self._addr:
             self.frame_buf.header.to_node = NETWORK_DEFAULT_ADDR
             self._write(NETWORK_DEFAULT_ADDR, TX_PHYSICAL)
+            # like RF24Network, repeat the un-acknowledged broadcast: the first copy may
+            # coincide with the NETWORK_ACK that the previous hop sends for this frame
+            time.sleep(0.01)
+            self._write(NETWORK_DEFAULT_ADDR, TX_PHYSICAL)
             return (True, msg_t)
         if msg_t == MESH_ADDR_REQUEST and self._addr:
             self.frame_buf.header.from_node = self._addr
